@@ -10,6 +10,7 @@ package main
 //          the real decision (ErrMissingWhereClause or not) vs the Lean model `missingWhere (guardState …)`, and the
 //          property itself: rejected ⇒ no exec/query/prepare event, table unchanged, errors.Is(ErrMissingWhereClause)
 //   admit  (e2e): chains that DO supply a condition are never rejected on this ground
+//   reuse  (c08_reuse.go): call sequences on one statement — tie with the Lean statement machine + the guard after any history
 
 import (
 	"encoding/json"
@@ -19,6 +20,7 @@ import (
 	"strings"
 
 	"gorm.io/gorm"
+	"gorm.io/gorm/clause"
 	"gorm.io/gorm/schema"
 )
 
@@ -35,8 +37,14 @@ type WSoft2 struct {
 type c09Call struct {
 	Desc  string
 	Apply func(db *gorm.DB, soft bool) *gorm.DB
-	// Lean mirror: a chain step with an empty form, or nothing at all for a call that is not a condition call
+	// Lean mirror: a statement-machine op (["cond", slot, "empty"] / ["cw", []]), or nothing for a call that touches
+	// neither the WHERE entry nor Unscoped
 	Step []interface{}
+	// EmptyWhere: the call installs a WHERE entry with ZERO expressions (listed finding F26 on plain / Unscoped statements)
+	EmptyWhere bool
+	// KeylessOnly: used on the blocking side only (with a preset SET entry Update skips ConvertToAssignments, which is also
+	// what adds the Model value's key)
+	KeylessOnly bool
 }
 
 func c09EmptyForms(soft bool) []struct {
@@ -80,7 +88,7 @@ func c09Calls(soft bool) []c09Call {
 			slot := slot
 			out = append(out, c09Call{
 				Desc: slot + "(" + f.desc + ")",
-				Step: []interface{}{slot, "empty"},
+				Step: []interface{}{"cond", slot, "empty"},
 				Apply: func(db *gorm.DB, _ bool) *gorm.DB {
 					q := f.q(db)
 					switch slot {
@@ -102,6 +110,41 @@ func c09Calls(soft bool) []c09Call {
 			return db.Scopes(func(d *gorm.DB) *gorm.DB { return d.Order("id") })
 		}},
 		{Desc: "Session{}", Apply: func(db *gorm.DB, _ bool) *gorm.DB { return db.Session(&gorm.Session{}) }},
+		// extra clauses on a write: none of them is a condition, none may let the write through
+		{Desc: "Clauses(Returning{})", Apply: func(db *gorm.DB, _ bool) *gorm.DB { return db.Clauses(clause.Returning{}) }},
+		{Desc: "Clauses(Returning{id})", Apply: func(db *gorm.DB, _ bool) *gorm.DB {
+			return db.Clauses(clause.Returning{Columns: []clause.Column{{Name: "id"}}})
+		}},
+		{Desc: "Clauses(OnConflict{DoNothing})", Apply: func(db *gorm.DB, _ bool) *gorm.DB { return db.Clauses(clause.OnConflict{DoNothing: true}) }},
+		{Desc: "Clauses(OnConflict{Where})", Apply: func(db *gorm.DB, _ bool) *gorm.DB {
+			return db.Clauses(clause.OnConflict{Columns: []clause.Column{{Name: "id"}}, UpdateAll: true,
+				Where: clause.Where{Exprs: []clause.Expression{clause.Eq{Column: "id", Value: 2}}}})
+		}},
+		{Desc: "Clauses(Locking{UPDATE})", Apply: func(db *gorm.DB, _ bool) *gorm.DB { return db.Clauses(clause.Locking{Strength: "UPDATE"}) }},
+		{Desc: "Clauses(From{})", Apply: func(db *gorm.DB, _ bool) *gorm.DB { return db.Clauses(clause.From{}) }},
+		{Desc: "Clauses(Limit{1})", Apply: func(db *gorm.DB, _ bool) *gorm.DB { l := 1; return db.Clauses(clause.Limit{Limit: &l}) }},
+		{Desc: "Clauses(OrderBy{id})", Apply: func(db *gorm.DB, _ bool) *gorm.DB {
+			return db.Clauses(clause.OrderBy{Columns: []clause.OrderByColumn{{Column: clause.Column{Name: "id"}}}})
+		}},
+		{Desc: "Clauses(GroupBy{Having})", Apply: func(db *gorm.DB, _ bool) *gorm.DB {
+			return db.Clauses(clause.GroupBy{Columns: []clause.Column{{Name: "a"}}, Having: []clause.Expression{clause.Eq{Column: "id", Value: 2}}})
+		}},
+		{Desc: "Having(id = 2)", Apply: func(db *gorm.DB, _ bool) *gorm.DB { return db.Having("id = ?", 2) }},
+		{Desc: "Group(a)", Apply: func(db *gorm.DB, _ bool) *gorm.DB { return db.Group("a") }},
+		{Desc: "Joins(raw)", Apply: func(db *gorm.DB, _ bool) *gorm.DB { return db.Joins("JOIN w_plains p ON p.id = 2") }},
+		{Desc: "Select(*)", Apply: func(db *gorm.DB, _ bool) *gorm.DB { return db.Select("*") }},
+		{Desc: "Distinct()", Apply: func(db *gorm.DB, _ bool) *gorm.DB { return db.Distinct() }},
+		{Desc: "Offset(1)", Apply: func(db *gorm.DB, _ bool) *gorm.DB { return db.Offset(1) }},
+		{Desc: "Table(name)", Apply: func(db *gorm.DB, soft bool) *gorm.DB { return db.Table(c09Table(soft)) }},
+		{Desc: "Attrs(b=1)", Apply: func(db *gorm.DB, _ bool) *gorm.DB { return db.Attrs(map[string]interface{}{"b": 1}) }},
+		{Desc: "Clauses(Update{Modifier})", Apply: func(db *gorm.DB, _ bool) *gorm.DB { return db.Clauses(clause.Update{Modifier: "OR IGNORE"}) }},
+		{Desc: "Clauses(Set{a=1})", KeylessOnly: true, Apply: func(db *gorm.DB, _ bool) *gorm.DB {
+			return db.Clauses(clause.Set{{Column: clause.Column{Name: "a"}, Value: 1}})
+		}},
+		{Desc: "Clauses(Where{})", EmptyWhere: true, Step: []interface{}{"cw", []interface{}{}},
+			Apply: func(db *gorm.DB, _ bool) *gorm.DB { return db.Clauses(clause.Where{}) }},
+		{Desc: "Clauses(Where{Exprs: empty slice})", EmptyWhere: true, Step: []interface{}{"cw", []interface{}{}},
+			Apply: func(db *gorm.DB, _ bool) *gorm.DB { return db.Clauses(clause.Where{Exprs: []clause.Expression{}}) }},
 	}
 	return append(out, other...)
 }
@@ -194,18 +237,29 @@ type c09Case struct {
 	Unscoped bool     `json:"unscoped"`
 	Calls    []string `json:"calls"`
 	Fin      string   `json:"finisher"`
+	// transaction mode: "" (implicit transaction) | skip-session | skip-config (SkipDefaultTransaction) | begin (explicit
+	// Begin … Commit) | transaction (inside db.Transaction(func) that commits) | prepare (PrepareStmt session)
+	Mode string `json:"tx_mode,omitempty"`
 }
+
+var c09Modes = []string{"", "", "", "skip-session", "skip-config", "begin", "transaction", "prepare"}
 
 func tableDump(db *gorm.DB, soft bool) string { return tableDumpOf(db, tableOf(soft)) }
 
 func tableDumpOf(db *gorm.DB, table string) string {
-	var rows []map[string]interface{}
-	db.Session(&gorm.Session{NewDB: true}).Unscoped().Table(table).Order("id").Find(&rows)
-	var sb strings.Builder
-	for _, r := range rows {
-		fmt.Fprintf(&sb, "%v|%v|%v|%v|%v|%v;", r["id"], r["a"], r["b"], r["s"], r["deleted_at"], r["archived_at"])
+	cols := "id||'|'||ifnull(a,'N')||'|'||ifnull(b,'N')||'|'||ifnull(s,'N')"
+	if table != "w_plains" {
+		cols += "||'|'||ifnull(deleted_at,'N')"
 	}
-	return sb.String()
+	if table != "w_plains" && table != "w_softs" {
+		cols += "||'|'||ifnull(archived_at,'N')"
+	}
+	var out *string
+	db.Session(&gorm.Session{NewDB: true}).Raw("SELECT group_concat(x, ';') FROM (SELECT " + cols + " AS x FROM " + table + " ORDER BY id)").Scan(&out)
+	if out == nil {
+		return ""
+	}
+	return *out
 }
 
 func isExecEvent(e Event) bool {
@@ -220,11 +274,8 @@ func isExecEvent(e Event) bool {
 // whether the table changed
 func c09Run(db *gorm.DB, rec *Recorder, c c09Case, calls []c09Call, fin c09Fin) (err error, events []Event, changed bool) {
 	base := db
-	if c.Allow == "session" {
-		base = base.Session(&gorm.Session{AllowGlobalUpdate: true})
-	} else {
-		base = base.Session(&gorm.Session{})
-	}
+	sess := &gorm.Session{AllowGlobalUpdate: c.Allow == "session", SkipDefaultTransaction: c.Mode == "skip-session", PrepareStmt: c.Mode == "prepare"}
+	base = base.Session(sess)
 	c09Kind = c.Kind
 	before := tableDumpOf(db, c09Table(c.Soft))
 	h := base
@@ -241,13 +292,30 @@ func c09Run(db *gorm.DB, rec *Recorder, c c09Case, calls []c09Call, fin c09Fin) 
 		}
 	}
 	rec.Reset()
-	if c.Unscoped {
-		h = h.Unscoped()
+	body := func(h *gorm.DB) *gorm.DB {
+		if c.Unscoped {
+			h = h.Unscoped()
+		}
+		for _, cl := range calls {
+			h = cl.Apply(h, c.Soft)
+		}
+		return fin.Run(h, c.Soft, c.Key)
 	}
-	for _, cl := range calls {
-		h = cl.Apply(h, c.Soft)
+	var res *gorm.DB
+	switch c.Mode {
+	case "begin":
+		// the owner of the transaction does not abort on the error and commits
+		tx := h.Begin()
+		res = body(tx)
+		tx.Commit()
+	case "transaction":
+		h.Transaction(func(tx *gorm.DB) error {
+			res = body(tx)
+			return nil
+		})
+	default:
+		res = body(h)
 	}
-	res := fin.Run(h, c.Soft, c.Key)
 	events = rec.Snapshot()
 	after := tableDumpOf(db, c09Table(c.Soft))
 	return res.Error, events, before != after
@@ -274,8 +342,8 @@ func init() {
 				db.Create(&rec)
 			}
 		}
-		open := func(kind int, cfgAllow bool) world {
-			k := fmt.Sprint(kind, cfgAllow)
+		open := func(kind int, cfgAllow bool, skipTx bool) world {
+			k := fmt.Sprint(kind, cfgAllow, skipTx)
 			if w, ok := worlds[k]; ok {
 				return w
 			}
@@ -283,7 +351,7 @@ func init() {
 			if kind >= 1 {
 				rr = genRows(rand.New(rand.NewSource(7)), 6, true)
 			}
-			db, rec, _ := openW(rr, kind >= 1, &gorm.Config{AllowGlobalUpdate: cfgAllow})
+			db, rec, _ := openW(rr, kind >= 1, &gorm.Config{AllowGlobalUpdate: cfgAllow, SkipDefaultTransaction: skipTx})
 			if kind == 2 {
 				seed2(db)
 				rec.Reset()
@@ -307,14 +375,19 @@ func init() {
 			} else {
 				for i, p := range pend {
 					var missing bool
-					if json.Unmarshal(res[i], &missing) != nil {
+					var states []struct {
+						Rejected bool `json:"rejected"`
+					}
+					if json.Unmarshal(res[i], &states) == nil && len(states) > 0 {
+						missing = states[len(states)-1].Rejected
+					} else {
 						r.Violate(Violation{Kind: "correspondence", Suite: "guard", Input: p.c, Observed: string(res[i]), Note: "model rejected the input"})
 						continue
 					}
 					r.CorrCompared++
 					if missing != p.rejected {
 						r.Violate(Violation{Kind: "correspondence", Suite: "guard", Input: p.c, Observed: p.rejected, Expected: missing,
-							Note: "real decision (ErrMissingWhereClause?) differs from Lean missingWhere (guardState …)"})
+							Note: "real decision (ErrMissingWhereClause?) differs from the Lean statement machine (finRejected (stmtRun …))"})
 					}
 				}
 			}
@@ -337,12 +410,24 @@ func init() {
 		}
 		one := func(kind int, pre string, allow string, key int, unscoped bool, calls []c09Call, fin c09Fin) {
 			soft := kind >= 1
-			w := open(kind, allow == "config")
+			mode := c09Modes[rng.Intn(len(c09Modes))]
+			w := open(kind, allow == "config", mode == "skip-config")
 			c09Kind = kind
-			c := c09Case{Kind: kind, Pre: pre, Soft: soft, Allow: allow, Key: key, Unscoped: unscoped, Fin: fin.Name}
+			c := c09Case{Kind: kind, Pre: pre, Soft: soft, Allow: allow, Key: key, Unscoped: unscoped, Fin: fin.Name, Mode: mode}
 			var steps []interface{}
+			emptyWhere := false
+			if pre != "" {
+				steps = append(steps, []interface{}{"fin", pre, []interface{}{}, false})
+			}
+			if unscoped {
+				steps = append(steps, []interface{}{"unscoped"})
+			}
 			for _, cl := range calls {
+				if cl.KeylessOnly && key != 0 {
+					return
+				}
 				c.Calls = append(c.Calls, cl.Desc)
+				emptyWhere = emptyWhere || cl.EmptyWhere
 				if cl.Step != nil {
 					steps = append(steps, cl.Step)
 				}
@@ -358,9 +443,13 @@ func init() {
 			}
 			r.Case("guard", fmt.Sprint(c), true)
 			r.H("guard.finisher", fin.Name)
+			r.H("guard.txmode", "mode="+mode)
 			r.H("guard.decision", fmt.Sprintf("kind=%d pre=%q allow=%s key=%v unscoped=%v -> rejected=%v", kind, pre, allow, key != 0, unscoped, rejected))
 			// ---- the property
-			if allow == "off" && key == 0 {
+			if allow == "off" && key == 0 && emptyWhere {
+				// the chain's only "condition" is an empty clause.Where{}: see c09JudgeEmptyWhere (listed finding F26)
+				c09JudgeEmptyWhere(r, c, rejected, fmt.Sprint(err), nExec, changed)
+			} else if allow == "off" && key == 0 {
 				// blocking side: must be rejected, nothing sent, nothing changed
 				if !rejected || nExec != 0 || changed {
 					r.Violate(Violation{Kind: "e2e", Suite: "guard", Input: c,
@@ -376,18 +465,23 @@ func init() {
 					Observed: map[string]interface{}{"statements_sent": nExec, "table_changed": changed}, Expected: "a rejected operation executes no statement"})
 			}
 			restore(w, kind, before)
-			// ---- the tie
-			var softJ, pkJ interface{}
+			// ---- the tie: the Lean statement machine on [earlier finisher, Unscoped, calls…, the write finisher]
+			var softJ interface{}
 			if soft {
 				softJ = map[string]interface{}{"col": "`w_softs`.`deleted_at`", "kind": "eq", "val": "nil", "id": 0}
 			}
+			keyJ := []interface{}{}
 			if key != 0 {
-				pkJ = map[string]interface{}{"col": "`id`", "kind": "eq", "val": "scalar", "id": 1}
+				keyJ = append(keyJ, map[string]interface{}{"col": "`id`", "kind": "eq", "val": "scalar", "id": 1})
 			}
-			if steps == nil {
-				steps = []interface{}{}
+			if strings.HasPrefix(fin.Name, "Delete") {
+				// the deleted value's key; the statement's Model (if any) is key-less
+				steps = append(steps, []interface{}{"fin", "delete", keyJ, false})
+				ops = append(ops, []interface{}{"stmt.run", softJ, []interface{}{}, allow != "off", steps})
+			} else {
+				steps = append(steps, []interface{}{"fin", "update", []interface{}{}, false})
+				ops = append(ops, []interface{}{"stmt.run", softJ, keyJ, allow != "off", steps})
 			}
-			ops = append(ops, []interface{}{"guard", steps, softJ, unscoped, pkJ, allow != "off", pre != ""})
 			pend = append(pend, pending{c, rejected})
 			if len(ops) >= 3000 {
 				flush()
@@ -414,7 +508,7 @@ func init() {
 								// pairs: all of them in the thorough tier (first-use statements), a seeded sample otherwise
 								for _, a := range calls {
 									for _, b := range calls {
-										if tier != "thorough" && rng.Intn(90) != 0 || pre != "" && rng.Intn(4) != 0 {
+										if tier != "thorough" && rng.Intn(330) != 0 || tier == "thorough" && rng.Intn(2) != 0 || pre != "" && rng.Intn(4) != 0 {
 											continue
 										}
 										one(kind, pre, allow, key, unscoped, []c09Call{a, b}, fin)
@@ -432,9 +526,10 @@ func init() {
 		}
 		flush()
 		r.Exhaustive = true
-		r.Note("blocking side enumerated exhaustively: %d condition-free calls (9 empty forms x Where/Not/Or + 6 other chain methods), "+
-			"none/one call and pairs (all pairs in thorough, 1/90 sample in quick) x 10 finishers (struct and slice model values) x plain/soft-delete/two-soft-delete-columns x "+
-			"first use or reuse of the statement after Count/Pluck x AllowGlobalUpdate off/config/session x key zero/set x Unscoped", len(c09Calls(false)))
+		r.Note("blocking side enumerated exhaustively: %d condition-free calls (9 empty forms x Where/Not/Or + 28 other chain methods and extra clauses), "+
+			"none/one call and pairs (half of the pairs in thorough, 1/330 sample in quick) x 10 finishers (struct and slice model values) x plain/soft-delete/two-soft-delete-columns x "+
+			"first use or reuse of the statement after Count/Pluck x AllowGlobalUpdate off/config/session x key zero/set x Unscoped; the transaction mode "+
+			"(implicit / SkipDefaultTransaction session+config / Begin..Commit / Transaction / PrepareStmt) is drawn per case", len(c09Calls(false)))
 	})
 
 	// admitting side: a chain that supplies a condition is never rejected with ErrMissingWhereClause
@@ -469,7 +564,7 @@ func init() {
 			return
 		}
 		rr := genRows(rand.New(rand.NewSource(7)), 6, c.Soft)
-		db, rec, sqlDB := openW(rr, c.Soft, &gorm.Config{AllowGlobalUpdate: c.Allow == "config"})
+		db, rec, sqlDB := openW(rr, c.Soft, &gorm.Config{AllowGlobalUpdate: c.Allow == "config", SkipDefaultTransaction: c.Mode == "skip-config"})
 		defer sqlDB.Close()
 		if c.Kind == 2 {
 			db.AutoMigrate(&WSoft2{})
@@ -503,6 +598,12 @@ func init() {
 			}
 		}
 		rejected := errors.Is(err, gorm.ErrMissingWhereClause)
+		for _, cl := range calls {
+			if cl.EmptyWhere && c.Allow == "off" && c.Key == 0 {
+				c09JudgeEmptyWhere(r, c, rejected, fmt.Sprint(err), nExec, changed)
+				return
+			}
+		}
 		if c.Allow == "off" && c.Key == 0 && (!rejected || nExec != 0 || changed) || rejected && (nExec != 0 || changed) || c.Key != 0 && rejected {
 			r.Violate(Violation{Kind: "e2e", Suite: "guard", Input: c, Observed: map[string]interface{}{"error": fmt.Sprint(err), "statements_sent": nExec, "table_changed": changed}})
 		}
